@@ -37,10 +37,11 @@ theorem hrpHigh_hi (hrp : Bytes) : ∀ c c', hrpHigh? hrp c = some c' → hi30 c
         have := ch.toNat_lt
         simp only [UInt8.toNat_toUInt32]; omega
 
-/-- Bech32 / Bech32m "create then verify": whatever `Encode` produces for a non-empty hrp, `Decode`
-    reads back as the same (hrp, data, variant). -/
-theorem decode_encode (hrp data s : Bytes) (m : Bool) (hne : hrp ≠ [])
+/-- Bech32 / Bech32m "create then verify": whatever `Encode` produces, `Decode` reads back as the same
+    (hrp, data, variant) (`Encode` produces nothing for the empty hrp: `encode_nil`). -/
+theorem decode_encode (hrp data s : Bytes) (m : Bool)
     (h : encode hrp data m = some s) : decode s = some (hrp, data, m) := by
+  have hne : hrp ≠ [] := encode_some_ne h
   obtain ⟨h1, c0, hH, hlen, hD, hs⟩ := encode_some h
   let P := six c0 ^^^ finalConstant m
   let tail := data.map charsetAt ++ (checksumSyms P).map charsetAt
